@@ -1,5 +1,6 @@
 import ScriggoV.Basic.Bytes
 import ScriggoV.Spec.GoPath
+import ScriggoV.Model.PathSites
 /-! Model of template file loading (C18):
 
 * `validTemplatePath` — `internal/compiler/path.go:ValidTemplatePath`, statement by statement
@@ -10,7 +11,10 @@ import ScriggoV.Spec.GoPath
   recursion `ParseTemplate → parseSource → expand → parseNodeFile → parseSource …` over an
   abstract file map (file name ↦ the Extends/Import/Render references of the file in source
   order), with the `paths` stack, the `trees` cache, `canExtend`, and the trace of names
-  passed to `fs.FS.Open`.
+  passed to `fs.FS.Open`;
+* `checkRefs` — what the parser does with the path of every reference, *per parse site*
+  (`Model/PathSites.lean`): the recursion takes the table `Site → Guard` as a parameter, the
+  real one is generated (`Gen/PathSites.lean`).
 
 What a file map abstracts away: the template source text (a file is the list of its
 references, i.e. what `ParseTemplateSource` returns in `unexpanded`), positions, formats.
@@ -73,11 +77,19 @@ inductive Kind
   | ext | imp | ren
   deriving DecidableEq, Repr
 
-/-- a reference in a file; `special`: the render is the left operand of `default` -/
+/-- the node kind built at a site -/
+def Site.kind : Site → Kind
+  | .extStmt | .extStmts | .extEOF => .ext
+  | .impStmt | .impStmts | .impEOF => .imp
+  | .renShow | .renStmt | .renStmts | .renEOF => .ren
+
+/-- a reference in a file; `special`: the render is the left operand of `default`;
+`site`: where it is written (which guard of the parser its path went through) -/
 structure Ref where
   kind : Kind
   special : Bool
   path : Bytes
+  site : Site
   deriving DecidableEq, Repr
 
 /-- the file system: name ↦ references of the file, in source order -/
@@ -113,14 +125,28 @@ structure St where
 
 abbrev Res := St × Except Err Unit
 
-/-- the parser's check of every reference path (`ValidTemplatePath`), in source order -/
-def checkRefs : List Ref → Except Err Unit
+/-- `"main"` -/
+def mainPkg : Bytes := [109, 97, 105, 110]
+
+/-- what a guard answers for a path: `true` = the node is built.  For `package` this is the
+part of `validatePackagePath` that matters here — it returns at once for "main" and panics when
+`ValidTemplatePath` is false; its further tests (character classes, canonical form) only reject
+more (template files are never parsed with `end == tokenEOF` at the file level). -/
+def guardCheck (g : Guard) (path : Bytes) : Except Fault Bool :=
+  match g with
+  | .none => .ok true
+  | .template => validTemplatePath path
+  | .package => if path == mainPkg then .ok true else validTemplatePath path
+
+/-- the parser's check of every reference path, in source order: the guard of the site where
+the reference is written -/
+def checkRefs (tbl : SiteTable) : List Ref → Except Err Unit
   | [] => .ok ()
   | r :: rs =>
-    match validTemplatePath r.path with
+    match guardCheck (tbl r.site) r.path with
     | .error f => .error (.fault f)
     | .ok false => .error (.syntax (.invalidRefPath r.kind))
-    | .ok true => checkRefs rs
+    | .ok true => checkRefs tbl rs
 
 /-- the `switch` over the cached tree's parent node in `parseNodeFile` -/
 def cacheCheck (cached node : Kind) : Except Err Unit :=
@@ -181,9 +207,9 @@ def expandWith (pnf : St → Ref → Res) (paths : List Bytes) : St → List Ref
 /-- `parseSource` for the file `name` whose references are `refs`: the parser's path check,
 then `pp.paths = append(pp.paths, path); pp.expand(unexpanded); pp.paths = pp.paths[:len-1]`
 (the stack is passed down instead of being pushed and popped) -/
-def parseSourceWith (pnfAt : List Bytes → St → Ref → Res) (paths : List Bytes) (st : St)
+def parseSourceWith (tbl : SiteTable) (pnfAt : List Bytes → St → Ref → Res) (paths : List Bytes) (st : St)
     (name : Bytes) (refs : List Ref) : Res :=
-  match checkRefs refs with
+  match checkRefs tbl refs with
   | .error e => (st, .error e)
   | .ok () => expandWith (pnfAt (name :: paths)) (name :: paths) st refs
 
@@ -191,7 +217,7 @@ def parseSourceWith (pnfAt : List Bytes → St → Ref → Res) (paths : List By
 def openFile (st : St) (name : Bytes) : St := { st with opens := name :: st.opens }
 
 /-- `parseNodeFile` -/
-def parseNodeFile (fm : FileMap) : Nat → List Bytes → St → Ref → Res
+def parseNodeFile (tbl : SiteTable) (fm : FileMap) : Nat → List Bytes → St → Ref → Res
   | 0, _, st, _ => (st, .error .outOfFuel)
   | fuel+1, paths, st, ref =>
     match paths.head? with
@@ -212,22 +238,22 @@ def parseNodeFile (fm : FileMap) : Nat → List Bytes → St → Ref → Res
             match fm.lookup name with
             | none => (openFile st name, .error .notExist)
             | some refs =>
-              match parseSourceWith (parseNodeFile fm fuel) paths (openFile st name) name refs with
+              match parseSourceWith tbl (parseNodeFile tbl fm fuel) paths (openFile st name) name refs with
               | (st', .ok ()) => ({ st' with trees := (name, ref.kind) :: st'.trees }, .ok ())
               | (st', .error e) => (st', .error e)
 
 def St.init : St := { trees := [], canExtend := true, opens := [], missingImport := false }
 
 /-- `ParseTemplate(fsys, name, …)` with explicit fuel -/
-def parseTemplateFuel (fm : FileMap) (fuel : Nat) (name : Bytes) : Res :=
+def parseTemplateFuel (tbl : SiteTable) (fm : FileMap) (fuel : Nat) (name : Bytes) : Res :=
   if name == dotSeg || name.getLast? == some 47 then (St.init, .error .invalid)
   else
     match fm.lookup name with
     | none => (openFile St.init name, .error .notExist)
-    | some refs => parseSourceWith (parseNodeFile fm fuel) [] (openFile St.init name) name refs
+    | some refs => parseSourceWith tbl (parseNodeFile tbl fm fuel) [] (openFile St.init name) name refs
 
 /-- `ParseTemplate`: the recursion depth is bounded by the number of files -/
-def parseTemplate (fm : FileMap) (name : Bytes) : Res :=
-  parseTemplateFuel fm (fm.length + 1) name
+def parseTemplate (tbl : SiteTable) (fm : FileMap) (name : Bytes) : Res :=
+  parseTemplateFuel tbl fm (fm.length + 1) name
 
 end ScriggoV.Paths
